@@ -380,6 +380,28 @@ func RunC01(d *Driver) *Report {
 		}
 		r.Rule += fmt.Sprintf("; whitespace separation: %d programs = 21 expression forms (index, slices, field, type assertion, call, literals, variables) x 8 following operands (unary minus, index-like, group, string, not) in argument, array-element, map-value and nested-call position, metamorphic oracle on the real code", nws)
 	}
+	// the documented meaning of index and slice expressions on array and string operands, negative
+	// positions counting from the end (spec.md: -i means (len s) - i), every bound missing or present
+	nacc := 0
+	for _, decl := range []string{"s := [10 20 30]", "s := [7]", "s:[]num", "s := \"aé世\"", "s := \"\"", "s := [[1] [2 3] []]"} {
+		for i := -5; i <= 5; i++ {
+			src := decl + "\nprint s[" + strconv.Itoa(i) + "]\n"
+			evalStream(r, d, "access", src, RunOpts{}, parts, true, nil)
+			nacc++
+		}
+		bounds := []string{""}
+		for i := -4; i <= 4; i++ {
+			bounds = append(bounds, strconv.Itoa(i))
+		}
+		for _, a := range bounds {
+			for _, b := range bounds {
+				src := decl + "\nprint s[" + a + ":" + b + "] (len s[" + a + ":" + b + "])\n"
+				evalStream(r, d, "access", src, RunOpts{}, parts, true, nil)
+				nacc++
+			}
+		}
+	}
+	r.Rule += fmt.Sprintf("; access: %d index and slice expressions (arrays, nested arrays, ASCII and non-ASCII strings of length 0..3; every position in [-5,5], every pair of bounds in [-4,4] or missing) against the Lean evaluator model", nacc)
 	// evaluation order and short circuit
 	for _, src := range c01OrderPrograms() {
 		c := evalStream(r, d, "order", src, RunOpts{}, parts, true, nil)
@@ -471,6 +493,15 @@ func RunC02(d *Driver) *Report {
 	}
 	for _, src := range c02Fixed() {
 		evalStream(r, d, "fixed", src, RunOpts{}, parts, true, oracle)
+	}
+	// every shape of a typed function's body (each branch of an if / else-if / else chain returning or not,
+	// loops, nesting): whatever the parser accepts is called so that each branch is taken, and the result
+	// used as a value of the declared type
+	for _, b := range c05Bodies() {
+		for _, v := range []string{"1", "-1", "0"} {
+			src := "a := " + v + "\nfunc f:num\n" + indent(b, 1) + "end\nx := (f)\nprint x (typeof x) (f)+1 [(f)] a\n"
+			evalStream(r, d, "return-shapes", src, RunOpts{MaxYield: 20000}, parts, true, oracle)
+		}
 	}
 	// resource limits of the host: run through the rebuilt binary in its own process (a Go stack overflow or
 	// an allocation failure kills the process and cannot be recovered in-process)
